@@ -185,11 +185,16 @@ RECONF = [
     [(2, 'W'), ('-', 2), ('+', 2), (2, 'R')],                       # removed and added again with a fresh datastore
     [('+', 4), ('-', 1), (0, 'W'), (4, 'R'), (1, 'R'), (3, 'R')],
 ]
+# the server is built on a multi-unit context that hosts nothing yet; the application adds the units afterwards
+RECONF_EMPTY = [
+    [('+', 5), (5, 'W'), (5, 'R'), (9, 'W')],
+    [(1, 'W'), ('+', 1), (1, 'W'), (1, 'R')],
+]
 
 
-def run_reconf(acc, front, framing, bc, ign, steps):
+def run_reconf(acc, front, framing, bc, ign, steps, hosted0=(1, 2, 3)):
     """the application adds / removes units of a multi-unit context between two reads of ONE open connection"""
-    ctx, ref, real, log = build((1, 2, 3), bc, ign)
+    ctx, ref, real, log = build(hosted0, bc, ign)
     srv = servers.Server(front, framing, ctx, broadcast_enable=bc, ignore_missing_slaves=ign)
     conn = srv.open()
     LAY = scenario.LAY
@@ -244,7 +249,7 @@ def run_reconf(acc, front, framing, bc, ign, steps):
     acc.inc('evaluations')
     for what in sorted(set(problems)):
         acc.violation('C10/%s/%s/multi/bc=%d,ign=%d/reconfigured/%s' % (front, framing, bc, ign, what),
-                      dict(front=front, framing=framing, hosted=[1, 2, 3], bc=bc, ign=ign, reconf=[list(x) for x in steps]),
+                      dict(front=front, framing=framing, hosted=list(hosted0), bc=bc, ign=ign, reconf=[list(x) for x in steps]),
                       '%s (steps %r, wrote %r)' % (what, steps, [w.hex() for w in writes][:6]), '%s/%s' % (front, framing))
     return problems
 
@@ -351,6 +356,9 @@ def shard(args):
             for steps in RECONF:
                 run_reconf(acc, front, framing, bc, ign, steps)
                 n += 1
+            for steps in RECONF_EMPTY:
+                run_reconf(acc, front, framing, bc, ign, steps, hosted0=())
+                n += 1
     run_defaults(acc, front, framing)
     if framing == 'tcp' and front in ('sync-tcp', 'sync-udp', 'aio-udp', 'tw-udp'):
         for a, b in ((1, 2), (2, 1), (1, 1), (9, 1), (1, 9)):
@@ -380,7 +388,7 @@ def run(tier, seed):
 def replay(w):
     acc = Acc()
     if w.get('reconf'):
-        p = run_reconf(acc, w['front'], w['framing'], w['bc'], w['ign'], [tuple(x) for x in w['reconf']])
+        p = run_reconf(acc, w['front'], w['framing'], w['bc'], w['ign'], [tuple(x) for x in w['reconf']], hosted0=tuple(w['hosted']))
     elif w.get('stale'):
         p = run_stale_header(acc, w['front'], w['framing'], tuple(w['hosted']), w['stale'][0], w['stale'][1])
     elif w.get('defaults'):
